@@ -642,6 +642,12 @@ func main() {
 	}
 	wg.Wait()
 	regctlTrace()
+	run.Races(func(rep string) string {
+		if fn := ev.RaceFrame(rep, "/repo/internal/auth/"); fn != "" {
+			return "race/auth/" + fn
+		}
+		return ""
+	})
 	if run.Get("requests_carrying_authorization") < 500 || run.Get("token_requests") < 50 || run.Get("redirects_issued") < 20 || run.Get("operations_ok") < int64(n)*5 {
 		run.Inconclusive("workload did not exercise authentication enough")
 	}
